@@ -67,14 +67,14 @@ def Toks (ts : List Token) : Prop :=
   (∀ t ∈ ts.dropLast, P t.loc) ∧ (∀ t, ts.getLast? = some t → t.kind ≠ .eof → P t.loc)
 
 /-- a successful result satisfies `Q` and leaves only input tokens -/
-def Good {α : Type} (Q : α → Prop) : Res α → Prop
+def LocGood {α : Type} (Q : α → Prop) : Res α → Prop
   | .ok a ts => Q a ∧ Toks P ts
   | _ => True
 
 variable {P}
 
 theorem good_bind {α β : Type} {Q : α → Prop} {R : β → Prop} {a : Res α} {k : α → List Token → Res β}
-    (h : Good P Q a) (hk : ∀ x ts, Q x → Toks P ts → Good P R (k x ts)) : Good P R (a.bind k) := by
+    (h : LocGood P Q a) (hk : ∀ x ts, Q x → Toks P ts → LocGood P R (k x ts)) : LocGood P R (a.bind k) := by
   cases a with
   | ok x ts => exact hk x ts h.1 h.2
   | err e => exact True.intro
@@ -82,7 +82,7 @@ theorem good_bind {α β : Type} {Q : α → Prop} {R : β → Prop} {a : Res α
 
 /-- `next`: on success the current token was an input token, and so are the remaining ones -/
 theorem good_next {β : Type} {R : β → Prop} {ts : List Token} {k : Unit → List Token → Res β} (h : Toks P ts)
-    (hk : ∀ ts1, P (cur ts).loc → Toks P ts1 → Good P R (k () ts1)) : Good P R ((next ts).bind k) := by
+    (hk : ∀ ts1, P (cur ts).loc → Toks P ts1 → LocGood P R (k () ts1)) : LocGood P R ((next ts).bind k) := by
   match ts, h with
   | [], _ => exact True.intro
   | [_], _ => exact True.intro
@@ -94,7 +94,7 @@ theorem good_next {β : Type} {R : β → Prop} {ts : List Token} {k : Unit → 
 
 theorem good_expect {β : Type} {R : β → Prop} {ts : List Token} {kd : TokKind} {v : String}
     {k : Unit → List Token → Res β} (h : Toks P ts)
-    (hk : ∀ ts1, P (cur ts).loc → Toks P ts1 → Good P R (k () ts1)) : Good P R ((expect kd v ts).bind k) := by
+    (hk : ∀ ts1, P (cur ts).loc → Toks P ts1 → LocGood P R (k () ts1)) : LocGood P R ((expect kd v ts).bind k) := by
   unfold expect
   split
   · exact good_next h hk
@@ -114,7 +114,7 @@ theorem Res.bind_assoc {α β γ : Type} (a : Res α) (k : α → List Token →
   cases a <;> rfl
 
 theorem good_ok {α : Type} {Q : α → Prop} {a : α} {ts : List Token} (ha : Q a) (ht : Toks P ts) :
-    Good P Q (.ok a ts) := ⟨ha, ht⟩
+    LocGood P Q (.ok a ts) := ⟨ha, ht⟩
 
 
 
@@ -126,20 +126,20 @@ abbrev QO : Option Node → Prop := fun o => Node.AllLocO P o
 
 /-- the fourteen statements at fuel `f` -/
 structure LocAt (f : Nat) : Prop where
-  expr : ∀ d p ts, Toks P ts → Good P (QN P) (parseExpression cfg f d p ts)
-  loop : ∀ d p l ts, l.AllLoc P → Toks P ts → Good P (QN P) (exprLoop cfg f d p l ts)
-  prim : ∀ d ts, Toks P ts → Good P (QN P) (parsePrimary cfg f d ts)
-  cond : ∀ d n ts, n.AllLoc P → Toks P ts → Good P (QN P) (parseConditional cfg f d n ts)
-  pexp : ∀ d ts, Toks P ts → Good P (QN P) (parsePrimaryExpression cfg f d ts)
-  ident : ∀ d t ts, P t.loc → Toks P ts → Good P (QN P) (parseIdentifierExpression cfg f d t ts)
-  clos : ∀ d ts, Toks P ts → Good P (QN P) (parseClosure cfg f d ts)
-  arr : ∀ d ts, Toks P ts → Good P (QN P) (parseArray cfg f d ts)
-  arrL : ∀ d b ts, Toks P ts → Good P (QL P) (arrayLoop cfg f d b ts)
-  map : ∀ d ts, Toks P ts → Good P (QN P) (parseMap cfg f d ts)
-  mapL : ∀ d l b ts, P l → Toks P ts → Good P (QL P) (mapLoop cfg f d l b ts)
-  post : ∀ d n b ts, n.AllLoc P → Toks P ts → Good P (QN P) (parsePostfix cfg f d n b ts)
-  args : ∀ d ts, Toks P ts → Good P (QL P) (parseArguments cfg f d ts)
-  argsL : ∀ d b ts, Toks P ts → Good P (QL P) (argsLoop cfg f d b ts)
+  expr : ∀ d p ts, Toks P ts → LocGood P (QN P) (parseExpression cfg f d p ts)
+  loop : ∀ d p l ts, l.AllLoc P → Toks P ts → LocGood P (QN P) (exprLoop cfg f d p l ts)
+  prim : ∀ d ts, Toks P ts → LocGood P (QN P) (parsePrimary cfg f d ts)
+  cond : ∀ d n ts, n.AllLoc P → Toks P ts → LocGood P (QN P) (parseConditional cfg f d n ts)
+  pexp : ∀ d ts, Toks P ts → LocGood P (QN P) (parsePrimaryExpression cfg f d ts)
+  ident : ∀ d t ts, P t.loc → Toks P ts → LocGood P (QN P) (parseIdentifierExpression cfg f d t ts)
+  clos : ∀ d ts, Toks P ts → LocGood P (QN P) (parseClosure cfg f d ts)
+  arr : ∀ d ts, Toks P ts → LocGood P (QN P) (parseArray cfg f d ts)
+  arrL : ∀ d b ts, Toks P ts → LocGood P (QL P) (arrayLoop cfg f d b ts)
+  map : ∀ d ts, Toks P ts → LocGood P (QN P) (parseMap cfg f d ts)
+  mapL : ∀ d l b ts, P l → Toks P ts → LocGood P (QL P) (mapLoop cfg f d l b ts)
+  post : ∀ d n b ts, n.AllLoc P → Toks P ts → LocGood P (QN P) (parsePostfix cfg f d n b ts)
+  args : ∀ d ts, Toks P ts → LocGood P (QL P) (parseArguments cfg f d ts)
+  argsL : ∀ d b ts, Toks P ts → LocGood P (QL P) (argsLoop cfg f d b ts)
 
 variable {P cfg}
 
